@@ -14,7 +14,8 @@ CFG = {'module': 'Dnp3.Props.C11',
               'series_consecutive',
               'solicited_correlated',
               'no_stall',
-              'series_makes_progress'],
+              'series_makes_progress',
+              'confirm_timeout_not_early'],
  'rule': 'engine db: operation sequences straight on the real Database over all eight point types (add with '
          'configured static / event variation and dead-band / update with every UpdateOptions / select by '
          "every READ header form the library's ReadHeader::from_* tables accept / write_response_headers at "
